@@ -180,6 +180,37 @@ fn c14d_case(p: &conc::ScanProgram, reps: u32) -> CaseReport {
 }
 
 // ------------------------------------------------------------------------------------------
+// C13 (concurrent part) and C11 (sweeper part)
+// ------------------------------------------------------------------------------------------
+
+fn c13d_case(p: &conc::MemProgram) -> CaseReport {
+    let out = conc::run_mem_program(p);
+    let mut counters = BTreeMap::new();
+    *counters.entry("usage_samples".into()).or_insert(0) += out.samples;
+    *counters.entry("writes_refused".into()).or_insert(0) += out.refused;
+    *counters.entry("writes_admitted".into()).or_insert(0) += out.admitted;
+    *counters.entry("admitted_within_2KB_of_limit".into()).or_insert(0) += out.near_limit_admissions;
+    let nontrivial = (out.refused > 0 && out.near_limit_admissions > 0).then(|| env::fnv(format!("{p:?}").as_bytes()));
+    let sample = nontrivial.map(|_| json!({"limit_kb": p.limit_kb, "threads": p.threads, "ops_per_thread": p.ops.iter().map(|o| o.len()).collect::<Vec<_>>(), "refused": out.refused, "admitted": out.admitted, "peak_usage": out.peak}));
+    let failure = out.failure.map(|(sig, msg)| (sig, msg, json!({"program": serde_json::to_value(p).unwrap()})));
+    CaseReport { failure, nontrivial, counters, sample, evaluations: 1 }
+}
+
+fn c11d_case(p: &conc::SweepProgram) -> CaseReport {
+    let out = conc::run_sweep_program(p);
+    let mut counters = BTreeMap::new();
+    *counters.entry("keys_removed_by_the_sweeper".into()).or_insert(0) += out.swept;
+    *counters.entry("renewals_in_time".into()).or_insert(0) += out.renewals_ok;
+    *counters.entry("renewals_too_late".into()).or_insert(0) += out.renewals_too_late;
+    *counters.entry("reads".into()).or_insert(0) += out.reads;
+    *counters.entry(format!("mode.{}", if p.persistent { "persistent" } else { "memory" })).or_insert(0) += 1;
+    let nontrivial = (out.swept > 0 && (out.renewals_ok + out.renewals_too_late) > 0).then(|| env::fnv(format!("{p:?}").as_bytes()));
+    let sample = nontrivial.map(|_| json!({"writers": p.writers, "keys_per_writer": p.keys_per_writer, "sample_size": p.sample_size, "swept": out.swept, "renewals_in_time": out.renewals_ok, "renewals_too_late": out.renewals_too_late, "first_actions": p.actions[0].iter().take(10).collect::<Vec<_>>()}));
+    let failure = out.failure.map(|(sig, msg)| (sig, msg, json!({"program": serde_json::to_value(p).unwrap()})));
+    CaseReport { failure, nontrivial, counters, sample, evaluations: 1 }
+}
+
+// ------------------------------------------------------------------------------------------
 // C18 (termination) - the same programs are the body of the C20 sanitizer runs
 // ------------------------------------------------------------------------------------------
 
@@ -312,6 +343,46 @@ pub fn worker(id: &str, seed: u64, lane: u64, count: u32, outdir: &str, tier: Ti
                     TestError::Abort(r) => TestError::Abort(r),
                 })
         }
+        "C13D" => {
+            let strat = conc::mem_program_strategy();
+            runner
+                .run(&strat, |p| {
+                    let counting = !failed.load(std::sync::atomic::Ordering::Relaxed);
+                    let r = c13d_case(&p);
+                    absorb(&agg, &r, counting);
+                    match r.failure {
+                        Some((sig, msg, _)) => {
+                            failed.store(true, std::sync::atomic::Ordering::Relaxed);
+                            Err(TestCaseError::fail(format!("[{sig}] {msg}")))
+                        }
+                        None => Ok(()),
+                    }
+                })
+                .map_err(|e| match e {
+                    TestError::Fail(r, v) => TestError::Fail(r, serde_json::to_value(&v).unwrap()),
+                    TestError::Abort(r) => TestError::Abort(r),
+                })
+        }
+        "C11D" => {
+            let strat = conc::sweep_program_strategy();
+            runner
+                .run(&strat, |p| {
+                    let counting = !failed.load(std::sync::atomic::Ordering::Relaxed);
+                    let r = c11d_case(&p);
+                    absorb(&agg, &r, counting);
+                    match r.failure {
+                        Some((sig, msg, _)) => {
+                            failed.store(true, std::sync::atomic::Ordering::Relaxed);
+                            Err(TestCaseError::fail(format!("[{sig}] {msg}")))
+                        }
+                        None => Ok(()),
+                    }
+                })
+                .map_err(|e| match e {
+                    TestError::Fail(r, v) => TestError::Fail(r, serde_json::to_value(&v).unwrap()),
+                    TestError::Abort(r) => TestError::Abort(r),
+                })
+        }
         "C18" => {
             let strat = conc::term_program_strategy();
             let journal = format!("{outdir}/lane{lane}.current.json");
@@ -392,6 +463,16 @@ fn meta(id: &str, tier: Tier) -> Meta {
             cases: tier.pick(900, 16_000),
             rule: "proptest-generated concurrent scan programs, memory-only and persistent: 6-330 stable keys (inserted before the threads start, never touched; > 256 exercises the scan's re-pin path) interleaved lexicographically with churn keys; 2-3 writers insert / insert_bytes / insert_if_absent / delete / flush the churn keys (even churn keys have one owning writer, odd ones are shared by all writers so creation races deletion of the same key); 1-2 scanners issue range queries with generated windows and limits. Each result must be strictly ascending, inside the bounds, at most limit long, every value a genuine stamped value of its key, every stable key inside the returned window present exactly once, and an owned churn key whose delete completed before the scan began (and that was not re-created until it ended) must not appear. After all threads finished the full range query, get() of every key, len() and both index key lists must agree. Non-trivial: an execution with a scan that overlapped writer calls.",
             assumptions: vec!["schedules are sampled and steered, not enumerated".into()],
+        },
+        "C13D" => Meta {
+            cases: tier.pick(1600, 24_000),
+            rule: "proptest-generated programs on a memory-only store with a limit of 8-200 KB: 2-8 threads insert / insert_bytes / grow by compare-and-swap / delete their own keys and up to 5 shared keys with values of 10 B - 40 KB (so only some writes fit), plus counters; two monitor threads sample memory_usage() continuously; steered schedules. Every sample must be <= the limit; a write refused with OutOfMemory must leave the owner's key unchanged; owned deletes must agree with the owner's knowledge; after all writers finished memory_usage() must equal the sum over the stored records and len() their number. Non-trivial: a run with at least one refused write and at least one write admitted within 2 KB of the limit.",
+            assumptions: vec!["the limit is checked on sampled instants (two spinning monitor threads), not on every instant".into()],
+        },
+        "C11D" => Meta {
+            cases: tier.pick(900, 14_000),
+            rule: "proptest-generated programs with a process-wide virtual clock: every key gets a 1 s TTL at time T, the clock jumps to T+2 s, the TTL sweeper starts (sample size 1-100, 1 ms interval) and 1-3 writers race it on their own keys: update_ttl / persist (must fail on the expired generation, must succeed after a replacement), replacement without TTL or with a long TTL, short already-expired TTLs again; a reader loops over all keys. A key whose latest generation is unexpired or has no expiry must never be missing (to the reader, to its writer's TTL calls, at the end); a value whose only generation expired >= 1 s ago must never be returned; TTL-only calls never revive an expired generation; returned bytes are the current generation. Memory-only and persistent. Non-trivial: a run in which the sweeper removed keys and writers issued TTL-only renewals.",
+            assumptions: vec!["virtual time is frozen during the race (the expiry decisions are exact); schedules are sampled and steered".into()],
         },
         "C18" => Meta {
             cases: tier.pick(480, 6000),
@@ -582,6 +663,8 @@ pub fn replay_sub(id: &str, path: &str) -> i32 {
     for _ in 0..60 {
         let failed = match id {
             "C14D" => serde_json::from_value::<conc::ScanProgram>(doc["replay"]["program"].clone()).ok().and_then(|p| c14d_case(&p, 1).failure),
+            "C13D" => serde_json::from_value::<conc::MemProgram>(doc["replay"]["program"].clone()).ok().and_then(|p| c13d_case(&p).failure),
+            "C11D" => serde_json::from_value::<conc::SweepProgram>(doc["replay"]["program"].clone()).ok().and_then(|p| c11d_case(&p).failure),
             "C08" | "C16D" => serde_json::from_value::<conc::RaceProgram>(doc["replay"]["program"].clone()).ok().and_then(|p| c08_case(&p, 1).failure),
             _ => None,
         };
